@@ -703,3 +703,439 @@ theorem run_conserve (c : Cfg) (hS : 0 < c.slide) (Q : α × Int → Prop) :
     exact List.Perm.append_right _ hstep
 
 end Noir.EventTimeWindow
+
+/-! ## Coverage: which arrivals find a slot -/
+namespace Noir.EventTimeWindow
+
+variable {α : Type}
+
+/-- not late with respect to the (manager's) last watermark -/
+def NotLate (lw : Option Int) (t : Int) : Prop := ∀ w, lw = some w → w < t
+
+/-- every non-late instant between the first start and one slide past the last start lies in
+    `[s, s + slide)` for some allocated start `s` (gaps only exist below the watermark) -/
+def CoversI (slide : Int) (lw : Option Int) (l : List Int) : Prop :=
+  ∀ t', NotLate lw t' → ∀ f b, l.head? = some f → l.getLast? = some b → f ≤ t' → t' < b + slide →
+    ∃ s ∈ l, s ≤ t' ∧ t' < s + slide
+
+def Covers (c : Cfg) (st : State α) : Prop := CoversI c.slide st.lw (st.ws.map (·.start))
+
+theorem nextStart_cases (c : Cfg) (hS : 0 < c.slide) (lw : Option Int) (t : Int) (ws : List (Slot α)) :
+    (∀ b, ws.getLast? = some b →
+      nextStart c lw t ws = b.start + c.slide ∨ ∃ w, lw = some w ∧ nextStart c lw t ws ≤ w) ∧
+    (ws.getLast? = none → NotLate lw t → nextStart c lw t ws = t) := by
+  unfold nextStart
+  constructor
+  · intro b hb
+    rw [hb]
+    cases lw with
+    | none => left; rfl
+    | some w =>
+      simp only
+      by_cases hd : w - (b.start + c.slide) ≤ 0
+      · left
+        have : max (w - (b.start + c.slide)) 0 = 0 := by omega
+        rw [this]; simp
+      · right
+        refine ⟨w, rfl, ?_⟩
+        have := skip_le c hS (w - (b.start + c.slide))
+        omega
+  · intro hn hnl
+    rw [hn]
+    cases lw with
+    | none => rfl
+    | some w =>
+      have := hnl w rfl
+      have h0 : max (w - t) 0 = 0 := by omega
+      simp only [h0]; simp
+
+theorem coversI_push (slide : Int) (lw : Option Int) (l : List Int) (n : Int) (h : CoversI slide lw l)
+    (hn : ∀ b, l.getLast? = some b → n = b + slide ∨ ∃ w, lw = some w ∧ n ≤ w) :
+    CoversI slide lw (l ++ [n]) := by
+  intro t' hnl f b hf hb hft htb
+  rw [List.getLast?_concat] at hb
+  injection hb with hb; subst hb
+  cases l with
+  | nil =>
+    simp at hf; subst hf
+    exact ⟨_, by simp, hft, htb⟩
+  | cons f0 rest =>
+    simp at hf; subst hf
+    cases hl : (f0 :: rest).getLast? with
+    | none => simp at hl
+    | some bk =>
+      by_cases hlt : t' < bk + slide
+      · obtain ⟨s, hs, h1, h2⟩ := h t' hnl f0 bk (by simp) hl hft hlt
+        exact ⟨s, by simp only [List.mem_append]; left; exact hs, h1, h2⟩
+      · refine ⟨n, by simp, ?_, htb⟩
+        rcases hn bk hl with h1 | ⟨w, hw, h1⟩
+        · omega
+        · have := hnl w hw; omega
+
+theorem coversI_suffix (slide : Int) (hS : 0 < slide) (lw lw' : Option Int) (l1 l2 : List Int)
+    (hp : (l1 ++ l2).Pairwise (fun a b => a + slide ≤ b)) (h : CoversI slide lw (l1 ++ l2))
+    (hmono : ∀ t', NotLate lw' t' → NotLate lw t') : CoversI slide lw' l2 := by
+  intro t' hnl f2 b hf2 hb hft htb
+  have hmem2 : f2 ∈ l2 := List.mem_of_mem_head? hf2
+  have hlast : (l1 ++ l2).getLast? = some b := by rw [List.getLast?_append, hb]; rfl
+  rw [List.pairwise_append] at hp
+  cases l1 with
+  | nil => exact h t' (hmono t' hnl) f2 b (by simpa using hf2) (by simpa using hb) hft htb
+  | cons f1 r1 =>
+    have hle : f1 + slide ≤ f2 := hp.2.2 f1 (by simp) f2 hmem2
+    obtain ⟨s, hs, h1, h2⟩ := h t' (hmono t' hnl) f1 b (by simp) hlast (by omega) htb
+    rcases List.mem_append.mp hs with hs1 | hs2
+    · have := hp.2.2 s hs1 f2 hmem2; omega
+    · exact ⟨s, hs2, h1, h2⟩
+
+theorem covers_alloc (c : Cfg) (hS : 0 < c.slide) (lw : Option Int) (t : Int) (ws : List (Slot α))
+    (h : CoversI c.slide lw (ws.map (·.start))) :
+    CoversI c.slide lw ((alloc c lw t ws).map (·.start)) := by
+  apply alloc_induct c lw t (fun ws' => CoversI c.slide lw (ws'.map (·.start))) _ ws h
+  intro ws' h' _
+  rw [List.map_append]
+  apply coversI_push _ _ _ _ h'
+  intro b hb
+  rw [List.getLast?_map] at hb
+  cases hl : ws'.getLast? with
+  | none => rw [hl] at hb; simp at hb
+  | some bk =>
+    rw [hl] at hb; simp at hb; subst hb
+    exact (nextStart_cases c hS lw t ws').1 bk hl
+
+theorem covers_init (c : Cfg) : Covers c (State.init : State α) := by
+  intro t' _ f b hf; simp [State.init] at hf
+
+/-- `Covers` is kept by every step, provided watermarks do not go back -/
+theorem process_covers (c : Cfg) (hS : 0 < c.slide) (Q : α × Int → Prop) (st : State α) (e : Elem α)
+    (inv : Inv c Q st) (hc : Covers c st) (hw : ∀ w, e = .wm w → ∀ w0, st.lw = some w0 → w0 ≤ w) :
+    Covers c (process c st e).1 := by
+  cases e with
+  | ts x t =>
+    simp only [process, Covers, assign_starts]
+    exact covers_alloc c hS st.lw t st.ws hc
+  | wm w =>
+    simp only [process, Covers]
+    have hsplit : st.ws.map (·.start) =
+        (st.ws.takeWhile (fun s => decide (s.stop < w))).map (·.start) ++
+        (st.ws.dropWhile (fun s => decide (s.stop < w))).map (·.start) := by
+      rw [← List.map_append, List.takeWhile_append_dropWhile]
+    have hp : (st.ws.map (·.start)).Pairwise (fun a b => a + c.slide ≤ b) := by
+      rw [List.pairwise_map]; exact inv.sorted
+    unfold Covers at hc
+    rw [hsplit] at hp hc
+    apply coversI_suffix c.slide hS st.lw (some w) _ _ hp hc
+    intro t' hnl w0 h0
+    have := hnl w rfl
+    have := hw w rfl w0 h0
+    omega
+  | far => intro t' _ f b hf; simp [process] at hf
+  | term => intro t' _ f b hf; simp [process] at hf
+  | item _ => exact hc
+  | flushBatch => exact hc
+
+/-- a non-late arrival at or after the oldest open slot finds a slot (`slide ≤ size`) -/
+theorem hits_pos (c : Cfg) (hS : 0 < c.slide) (hSN : c.slide ≤ c.size) (Q : α × Int → Prop)
+    (st : State α) (t : Int) (inv : Inv c Q st) (hc : Covers c st) (hnl : NotLate st.lw t)
+    (hfront : ∀ f, st.ws.head? = some f → f.start ≤ t) :
+    1 ≤ hits t (alloc c st.lw t st.ws) := by
+  obtain ⟨hok, _⟩ := alloc_inv c hS Q st.lw t st.ws inv.ok inv.sorted
+  have hcov := covers_alloc c hS st.lw t st.ws hc
+  obtain ⟨b, hb, hbt⟩ := alloc_back c hS st.lw t st.ws
+  have hhead : ∀ f, (alloc c st.lw t st.ws).head? = some f → f.start ≤ t := by
+    apply alloc_induct c st.lw t (fun ws' => ∀ f, ws'.head? = some f → f.start ≤ t) _ st.ws hfront
+    intro ws' h' _ f hf
+    cases ws' with
+    | nil =>
+      simp at hf; subst hf
+      have := (nextStart_cases c hS st.lw t ([] : List (Slot α))).2 rfl hnl
+      simp [Slot.new, this]
+    | cons f0 r => simp at hf; subst hf; exact h' _ rfl
+  cases hh : (alloc c st.lw t st.ws).head? with
+  | none =>
+    rw [List.head?_eq_none_iff] at hh; rw [hh] at hb; simp at hb
+  | some f =>
+    obtain ⟨s0, hs0, h1, h2⟩ := hcov t hnl f.start b.start (by rw [List.head?_map, hh]; rfl)
+      (by rw [List.getLast?_map, hb]; rfl) (hhead f hh) (by omega)
+    obtain ⟨sl, hsl, rfl⟩ := List.mem_map.mp hs0
+    have hsp := (hok sl hsl).span
+    have : sl ∈ (alloc c st.lw t st.ws).filter (contains t) := by
+      rw [List.mem_filter]; refine ⟨hsl, ?_⟩
+      simp [contains]; omega
+    unfold hits
+    exact List.length_pos_of_mem this
+
+/-- tumbling windows are disjoint: at most one slot contains a timestamp -/
+theorem hits_le_one (c : Cfg) (hT : c.slide = c.size) (t : Int) (ws : List (Slot α))
+    (hsp : ∀ s ∈ ws, s.stop = s.start + c.size) (hs : Sorted c ws) : hits t ws ≤ 1 := by
+  unfold hits
+  have hp : (ws.filter (contains t)).Pairwise (fun a b => a.start + c.slide ≤ b.start) :=
+    List.Pairwise.sublist List.filter_sublist hs
+  cases hL : ws.filter (contains t) with
+  | nil => simp
+  | cons a rest =>
+    cases rest with
+    | nil => simp
+    | cons b rest' =>
+      exfalso
+      rw [hL] at hp
+      have hab := (List.pairwise_cons.mp hp).1 b (by simp)
+      have ha : a ∈ ws.filter (contains t) := by rw [hL]; simp
+      have hb : b ∈ ws.filter (contains t) := by rw [hL]; simp
+      rw [List.mem_filter] at ha hb
+      have h1 := hsp a ha.1
+      have hca := ha.2; have hcb := hb.2
+      simp only [contains, Bool.and_eq_true, decide_eq_true_eq] at hca hcb
+      omega
+
+/-- starts that are `slide` apart and all `≤ t`: the first one is at least `(n-1)·slide` below `t` -/
+theorem starts_spread (c : Cfg) (t : Int) : ∀ (L : List (Slot α)) (a : Slot α),
+    Sorted c (a :: L) → (∀ s ∈ a :: L, s.start ≤ t) → a.start + (L.length : Int) * c.slide ≤ t := by
+  intro L
+  induction L with
+  | nil => intro a _ h; have := h a (by simp); simp; omega
+  | cons b rest ih =>
+    intro a hs h
+    have hab := (List.pairwise_cons.mp hs).1 b (by simp)
+    have := ih b (List.pairwise_cons.mp hs).2 (fun s hs' => h s (by simp [hs']))
+    simp only [List.length_cons, Int.natCast_add, Int.natCast_one, Int.add_mul, Int.one_mul]
+    omega
+
+/-- at most `⌈size/slide⌉` slots contain a timestamp -/
+theorem hits_le_ceil (c : Cfg) (hS : 0 < c.slide) (hN : 0 < c.size) (t : Int) (ws : List (Slot α))
+    (hsp : ∀ s ∈ ws, s.stop = s.start + c.size) (hs : Sorted c ws) :
+    (hits t ws : Int) ≤ (c.size + c.slide - 1) / c.slide := by
+  rw [Int.le_ediv_iff_mul_le hS]
+  unfold hits
+  have hp : Sorted c (ws.filter (contains t)) := List.Pairwise.sublist List.filter_sublist hs
+  cases hL : ws.filter (contains t) with
+  | nil => simp; omega
+  | cons a rest =>
+    rw [hL] at hp
+    have hmem : ∀ s ∈ a :: rest, s ∈ ws ∧ contains t s = true := by
+      intro s hs'; rw [← hL, List.mem_filter] at hs'; exact hs'
+    have hle : ∀ s ∈ a :: rest, s.start ≤ t := by
+      intro s hs'
+      have := (hmem s hs').2
+      simp only [contains, Bool.and_eq_true, decide_eq_true_eq] at this
+      exact this.1
+    have hspread := starts_spread c t rest a hp hle
+    have ha := hmem a (by simp)
+    have hca := ha.2
+    simp only [contains, Bool.and_eq_true, decide_eq_true_eq] at hca
+    have hspa := hsp a ha.1
+    simp only [List.length_cons, Int.natCast_add, Int.natCast_one, Int.add_mul, Int.one_mul]
+    omega
+
+end Noir.EventTimeWindow
+
+/-! ## Whole runs -/
+namespace Noir.EventTimeWindow
+
+variable {α : Type}
+
+/-- the timestamped data elements of a run, in arrival order -/
+def dataOf : List (Elem α) → List (α × Int)
+  | [] => []
+  | .ts x t :: es => (x, t) :: dataOf es
+  | _ :: es => dataOf es
+
+/-- The hypotheses of the `…_partial` theorems, checked along the run of the model:
+    every arriving element is not late with respect to the manager's last watermark **and is not
+    earlier than the start of the oldest open slot** (the F2 guard); watermarks do not go back. -/
+def Guarded (c : Cfg) : State α → List (Elem α) → Prop
+  | _, [] => True
+  | st, e :: es =>
+    (match e with
+     | .ts _ t => NotLate st.lw t ∧ ∀ f, st.ws.head? = some f → f.start ≤ t
+     | .wm w => ∀ w0, st.lw = some w0 → w0 ≤ w
+     | _ => True) ∧ Guarded c (process c st e).1 es
+
+/-- `Multi lo hi ds as`: `as` is `ds` with every element repeated between `lo` and `hi` times -/
+inductive Multi (lo hi : Nat) : List (α × Int) → List (α × Int) → Prop
+  | nil : Multi lo hi [] []
+  | cons (d : α × Int) (n : Nat) (ds as : List (α × Int)) :
+      lo ≤ n → n ≤ hi → Multi lo hi ds as → Multi lo hi (d :: ds) (List.replicate n d ++ as)
+
+theorem multi_one (ds as : List (α × Int)) (h : Multi 1 1 ds as) : as = ds := by
+  induction h with
+  | nil => rfl
+  | cons d n ds as h1 h2 _ ih =>
+    have : n = 1 := by omega
+    subst this; simp [ih]
+
+theorem assigned_multi (c : Cfg) (hS : 0 < c.slide) (hSN : c.slide ≤ c.size) (Q : α × Int → Prop) (hi : Nat)
+    (hhi : ∀ (t : Int) (ws : List (Slot α)), (∀ s ∈ ws, s.stop = s.start + c.size) → Sorted c ws → hits t ws ≤ hi) :
+    ∀ (es : List (Elem α)) (st : State α), Inv c Q st → Covers c st → Guarded c st es →
+      (∀ x t, .ts x t ∈ es → Q (x, t)) → Multi 1 hi (dataOf es) (assigned c st es) := by
+  intro es
+  induction es with
+  | nil => intros; exact Multi.nil
+  | cons e es ih =>
+    intro st inv hc hg hq
+    have inv' := process_inv c hS Q st e inv (fun x t he => hq x t (by simp [he]))
+    have hq' : ∀ x t, .ts x t ∈ es → Q (x, t) := fun x t hm => hq x t (by simp [hm])
+    cases e with
+    | ts x t =>
+      simp only [Guarded] at hg
+      obtain ⟨⟨hnl, hfront⟩, hg'⟩ := hg
+      have hc' := process_covers c hS Q st (.ts x t) inv hc (fun w h => by cases h)
+      simp only [dataOf, assigned]
+      obtain ⟨hok, hs⟩ := alloc_inv c hS Q st.lw t st.ws inv.ok inv.sorted
+      exact Multi.cons _ _ _ _ (hits_pos c hS hSN Q st t inv hc hnl hfront)
+        (hhi t _ (fun s h => (hok s h).span) hs) (ih _ inv' hc' hg' hq')
+    | wm w =>
+      simp only [Guarded] at hg
+      have hc' := process_covers c hS Q st (.wm w) inv hc (fun w' h => by injection h with h; subst h; exact hg.1)
+      simpa [dataOf, assigned] using ih _ inv' hc' hg.2 hq'
+    | far =>
+      simp only [Guarded] at hg
+      have hc' := process_covers c hS Q st .far inv hc (fun w h => by cases h)
+      simpa [dataOf, assigned] using ih _ inv' hc' hg.2 hq'
+    | term =>
+      simp only [Guarded] at hg
+      have hc' := process_covers c hS Q st .term inv hc (fun w h => by cases h)
+      simpa [dataOf, assigned] using ih _ inv' hc' hg.2 hq'
+    | item y =>
+      simp only [Guarded] at hg
+      have hc' := process_covers c hS Q st (.item y) inv hc (fun w h => by cases h)
+      simpa [dataOf, assigned] using ih _ inv' hc' hg.2 hq'
+    | flushBatch =>
+      simp only [Guarded] at hg
+      have hc' := process_covers c hS Q st .flushBatch inv hc (fun w h => by cases h)
+      simpa [dataOf, assigned] using ih _ inv' hc' hg.2 hq'
+
+theorem stateAfter_append (c : Cfg) : ∀ (es es' : List (Elem α)) (st : State α),
+    stateAfter c st (es ++ es') = stateAfter c (stateAfter c st es) es' := by
+  intro es
+  induction es with
+  | nil => intros; rfl
+  | cons e es ih => intro es' st; simp [stateAfter, ih]
+
+theorem mem_takeWhile_prop {β : Type} (p : β → Bool) : ∀ (l : List β) (x : β), x ∈ l.takeWhile p → p x = true := by
+  intro l
+  induction l with
+  | nil => intro x h; simp at h
+  | cons a l ih =>
+    intro x h
+    rw [List.takeWhile_cons] at h
+    split at h
+    · simp only [List.mem_cons] at h
+      rcases h with rfl | h
+      · assumption
+      · exact ih x h
+    · simp at h
+
+/-- every result of a run is triggered by a watermark strictly beyond its stamp, or by the end of
+    the iteration / stream -/
+theorem runFrom_fire (c : Cfg) : ∀ (es : List (Elem α)) (st : State α) (i : Nat),
+    ∀ p ∈ runFrom c st i es, ∃ j, p.1 = i + j ∧
+      (es[j]? = some .far ∨ es[j]? = some .term ∨
+       ∃ w stop, es[j]? = some (.wm w) ∧ p.2.ts = some stop ∧ stop < w) := by
+  intro es
+  induction es with
+  | nil => intro st i p hp; simp [runFrom] at hp
+  | cons e es ih =>
+    intro st i p hp
+    simp only [runFrom, List.mem_append, List.mem_map] at hp
+    rcases hp with ⟨r, hr, rfl⟩ | hp
+    · refine ⟨0, rfl, ?_⟩
+      cases e with
+      | wm w =>
+        right; right
+        simp only [process, emit, List.mem_map, List.mem_filter] at hr
+        obtain ⟨s, ⟨h1, _⟩, rfl⟩ := hr
+        have := mem_takeWhile_prop _ _ s h1
+        exact ⟨w, s.stop, rfl, rfl, by simpa using this⟩
+      | far => left; rfl
+      | term => right; left; rfl
+      | ts x t => simp [process] at hr
+      | item _ => simp [process] at hr
+      | flushBatch => simp [process] at hr
+    · obtain ⟨j, hj, h⟩ := ih _ _ p hp
+      refine ⟨j + 1, by omega, ?_⟩
+      simpa using h
+
+end Noir.EventTimeWindow
+
+/-! ## Transaction windows -/
+namespace Noir.TransactionWindow
+
+variable {α : Type}
+
+/-- a run of `Continue` elements only accumulates -/
+theorem run_continue (f : α → TxOp) : ∀ (xs : List (α × Int)) (items : List α) (cl : Option Int) (i : Nat)
+    (rest : List (Elem α)), (∀ p ∈ xs, f p.1 = .continue_) →
+    runFrom f (some ⟨items, cl⟩) i (xs.map (fun p => Elem.ts p.1 p.2) ++ rest) =
+      runFrom f (some ⟨items ++ xs.map (·.1), cl⟩) (i + xs.length) rest := by
+  intro xs
+  induction xs with
+  | nil => intros; simp
+  | cons p xs ih =>
+    intro items cl i rest h
+    have hp : f p.1 = .continue_ := h p (by simp)
+    simp only [List.map_cons, List.cons_append, runFrom, process, hp, List.map_nil, List.nil_append]
+    rw [ih _ _ _ _ (fun q hq => h q (by simp [hq]))]
+    simp only [List.length_cons, List.append_assoc, List.singleton_append]
+    congr 1; omega
+
+end Noir.TransactionWindow
+
+namespace Noir.EventTimeWindow
+
+variable {α : Type}
+
+theorem dataOf_snoc_far (es : List (Elem α)) : dataOf (es ++ [.far]) = dataOf es := by
+  induction es with
+  | nil => rfl
+  | cons e es ih => cases e <;> simp [dataOf, ih]
+
+theorem guarded_snoc_far (c : Cfg) : ∀ (es : List (Elem α)) (st : State α),
+    Guarded c st es → Guarded c st (es ++ [.far]) := by
+  intro es
+  induction es with
+  | nil => intro st _; simp [Guarded]
+  | cons e es ih => intro st h; simp only [List.cons_append, Guarded] at *; exact ⟨h.1, ih _ h.2⟩
+
+/-- without any hypothesis on the input: every arrival is assigned to at most `hi` slots -/
+theorem assigned_multi0 (c : Cfg) (hS : 0 < c.slide) (Q : α × Int → Prop) (hi : Nat)
+    (hhi : ∀ (t : Int) (ws : List (Slot α)), (∀ s ∈ ws, s.stop = s.start + c.size) → Sorted c ws → hits t ws ≤ hi) :
+    ∀ (es : List (Elem α)) (st : State α), Inv c Q st →
+      (∀ x t, .ts x t ∈ es → Q (x, t)) → Multi 0 hi (dataOf es) (assigned c st es) := by
+  intro es
+  induction es with
+  | nil => intros; exact Multi.nil
+  | cons e es ih =>
+    intro st inv hq
+    have inv' := process_inv c hS Q st e inv (fun x t he => hq x t (by simp [he]))
+    have hq' : ∀ x t, .ts x t ∈ es → Q (x, t) := fun x t hm => hq x t (by simp [hm])
+    cases e with
+    | ts x t =>
+      simp only [dataOf, assigned]
+      obtain ⟨hok, hs⟩ := alloc_inv c hS Q st.lw t st.ws inv.ok inv.sorted
+      exact Multi.cons _ _ _ _ (Nat.zero_le _) (hhi t _ (fun s h => (hok s h).span) hs) (ih _ inv' hq')
+    | wm w => simpa [dataOf, assigned] using ih _ inv' hq'
+    | far => simpa [dataOf, assigned] using ih _ inv' hq'
+    | term => simpa [dataOf, assigned] using ih _ inv' hq'
+    | item y => simpa [dataOf, assigned] using ih _ inv' hq'
+    | flushBatch => simpa [dataOf, assigned] using ih _ inv' hq'
+
+/-- `⌈size/slide⌉` as a natural number -/
+def ceilSlots (c : Cfg) : Nat := ((c.size + c.slide - 1) / c.slide).toNat
+
+theorem hits_le_ceilSlots (c : Cfg) (hS : 0 < c.slide) (hN : 0 < c.size) (t : Int) (ws : List (Slot α))
+    (hsp : ∀ s ∈ ws, s.stop = s.start + c.size) (hs : Sorted c ws) : hits t ws ≤ ceilSlots c := by
+  have := hits_le_ceil c hS hN t ws hsp hs
+  unfold ceilSlots
+  omega
+
+/-- a run that ends with `FlushAndRestart` leaves nothing behind -/
+theorem results_far_conserve (c : Cfg) (hS : 0 < c.slide) (es : List (Elem α)) :
+    (outItems (results c State.init (es ++ [.far]))).Perm (assigned c State.init (es ++ [.far])) := by
+  have h := run_conserve c hS (fun _ => True) (es ++ [.far]) State.init (inv_init c _) (fun _ _ _ => trivial)
+  have hfin : (stateAfter c State.init (es ++ [.far])).ws = [] := by
+    rw [stateAfter_append]; simp [stateAfter, process]
+  rw [hfin] at h
+  simpa [held, State.init] using h
+
+end Noir.EventTimeWindow
